@@ -47,6 +47,7 @@ Proof.
   - apply Forall_app. split; [apply Forall_cbs; intros; exact I|assumption].
   - apply Forall_tl. assumption.
   - destruct (dcb s d); repeat constructor.
+  - destruct (dcb s d); repeat constructor.
 Qed.
 
 Lemma PS_reach s : reachable_from step init s -> PS s.
@@ -186,6 +187,7 @@ Proof.
   - apply in_tl in Hin.
     assert (Hold : In (IXAcqPop r0) (thr s t)) by (rewrite Heql; right; exact Hin).
     apply (jpop_keep s _ _ r0 H0 HP (Hr0 t Hold) (HJ t r0 Hold)); intros Hj. left. exact Hj.
+  - destruct (dcb s d); simpl in Hin; [destruct Hin as [E|[E|[]]]; discriminate E|destruct Hin].
   - destruct (dcb s d); simpl in Hin; [destruct Hin as [E|[E|[]]]; discriminate E|destruct Hin].
 Qed.
 
